@@ -14,7 +14,8 @@ import VaxisModel.Spec.KeyEnc
 Ops (`op<TAB>impl`):
   dec U seq spec            impl = key          model decodeKey; oracle = Spec expected key (`spec`)
   mat U key rune mask       impl = 0|1          model matches;  oracle = documented rules + strong-mods
-  mstr U F key str self     impl = 0|1          model matchString; oracle: self=1 ⇒ must match
+  mstr U F key str          impl = 0|1          model matchString
+  self U F key              impl = String()|0|1 model keyString + matchString of it; oracle: a pressed chord matches
   str U key                 impl = runes        model keyString
   xp U F seqL seqK binds    impl = strL|strK|bitsL|bitsK   cross-protocol: same String, same bindings
 -/
@@ -104,20 +105,20 @@ def expected (u : Uni) (seq : Seq) (spec : String) : Except String (Option Key) 
       | .c0 b => if 0 ≤ b ∧ b < 32 then .ok (some (KeyEnc.c0Expected b)) else .error "C0 out of range"
       | _ => .error "spec c on a non-C0 sequence"
   | ["e"] => match seq with
-      | .esc f => .ok (some (KeyEnc.escExpected f))
+      | .esc f => .ok (some (KeyEnc.escExpected u f))
       | _ => .error "spec e on a non-ESC sequence"
   | ["s"] => match seq with
       | .ss3 b => match lookup b KeyEnc.ss3Table with
           | some k => .ok (some { keycode := k })
           | none => .ok none
       | _ => .error "spec s on a non-SS3 sequence"
-  | ["z"] => if seq = .csi [] 90 then .ok (some { keycode := Gen.Keys.KeyTab, mods := KeyEnc.shiftBit }) else .error "spec z: not CSI Z"
+  | ["z"] => if seq = .csi [] 90 then .ok (some (KeyEnc.shiftFix u { keycode := Gen.Keys.KeyTab, mods := KeyEnc.shiftBit })) else .error "spec z: not CSI Z"
   | ["n", fin, _] =>
       match fin.toInt? with
       | some fin =>
         if seq ≠ .csi [] fin then .error "spec n: sequence is not a parameterless CSI"
         else match lookup2 (1, fin) KeyEnc.functional with
-          | some key => .ok (some { keycode := key })
+          | some key => .ok (some (KeyEnc.shiftFix u { keycode := key }))
           | none => .ok none
       | _ => .error "bad spec n"
   | ["m", mods, code] =>
@@ -186,15 +187,27 @@ def step (line : String) : String :=
         else s!"FAIL Matches returned {impl} but the documented rules give {b01 want}"
       s!"{b01 model}\t{impl}\t{v}"
     | _, _, _, _ => bad
-  | ["mstr", ut, ft, kt, st, self] =>
+  | ["mstr", ut, ft, kt, st] =>
     match parseU? ut, parseF? ft, parseKey? kt, sepInts? "." st with
     | some t, some f, some k, some s =>
       let u := mkUni t f
-      let model := matchString u k s
-      let v := if self = "1" ∧ KeyEnc.pressedChord k then
-          (if impl = "1" then "ok" else s!"FAIL key {showKey k} does not match its own String() {showStr s}") else "-"
-      s!"{b01 model}\t{impl}\t{v}"
+      s!"{b01 (matchString u k s)}\t{impl}\t-"
     | _, _, _, _ => bad
+  | ["self", ut, ft, kt] =>
+    match parseU? ut, parseF? ft, parseKey? kt with
+    | some t, some f, some k =>
+      let u := mkUni t f
+      let s := keyString u k
+      let model := s!"{showStr s}|{b01 (matchString u k s)}"
+      let v := if KeyEnc.pressedChord k then
+          (if impl.endsWith "|1" then "ok"
+           else
+             -- which region of the chord space this is (for the known-findings file)
+             let cls := if k.mods &&& KeyEnc.capsBit ≠ 0 ∧ k.text ≠ strOfRune (u.toUpper k.keycode) ∧ u.toUpper k.keycode ≠ k.keycode then "caps-lock letter reported without its upper-case text"
+                        else "chord"
+             s!"FAIL self-match [{cls}]: key {showKey k} does not match its own String() {impl}") else "-"
+      s!"{model}\t{impl}\t{v}"
+    | _, _, _ => bad
   | ["str", ut, kt] =>
     match parseU? ut, parseKey? kt with
     | some t, some k =>
